@@ -682,7 +682,7 @@ def run_prelude(q, r, case, meas=None, cap=None, wlist=None, by=None):
         elif k == "global-recalc":
             read()
             glob = op[1]
-            q.set_monte_carlo_sample_size(glob)
+            M.set_global(q, glob)
             r.recalculate()
         elif k == "read":
             read()
@@ -730,7 +730,7 @@ def run_prelude(q, r, case, meas=None, cap=None, wlist=None, by=None):
             _, what, read_first, recalc, newglob = op
             if newglob:
                 glob = newglob if newglob != glob else newglob + 1
-                q.set_monte_carlo_sample_size(glob)
+                M.set_global(q, glob)
             if read_first:
                 read()
             if cap is not None:
@@ -783,7 +783,7 @@ def run_prelude(q, r, case, meas=None, cap=None, wlist=None, by=None):
             if read_between:
                 read()
             glob = newglob if newglob != glob else newglob + 1
-            q.set_monte_carlo_sample_size(glob)
+            M.set_global(q, glob)
             if recalc:
                 r.recalculate()
         else:
@@ -1034,7 +1034,8 @@ def ill_conditioned(o):
     return abs(M.min_eig(R)) < 1e-9
 
 
-def run(ctx, n_cases, sizes, ref=False, cases=None, force_kind=None, force_pre=None, obs=None):
+def run(ctx, n_cases, sizes, ref=False, cases=None, force_kind=None, force_pre=None, obs=None,
+        independent=False):
     import qexpy as q
     if cases is None:
         cases = [gen_case(ctx.rng, sizes, force_kind=force_kind, force_pre=force_pre)
@@ -1055,6 +1056,7 @@ def run(ctx, n_cases, sizes, ref=False, cases=None, force_kind=None, force_pre=N
         dist["sources:{}".format(len(o.get("order", [])))] += 1
         dist["size:{}".format(c["per"] or c["global"])] += 1
         dist["size-per-quantity" if c["per"] else "size-global"] += 1
+        dist["global-size-set-through-the-" + M.global_route(c["global"])] += 1
         dist["monte-carlo-method-set-" + ("globally" if c["method"] == "global" else "on-the-result")] += 1
         dist["repeated-measurement-sources:{}".format(len(c.get("raw", {})))] += 1
         for op in c.get("pre", []):
@@ -1108,6 +1110,15 @@ def run(ctx, n_cases, sizes, ref=False, cases=None, force_kind=None, force_pre=N
                     fl, nt = [], nt2
                     dist["sources-in-another-row-order"] += 1
                     break
+        if independent and not fl:
+            # judged a second time WITHOUT the tables regenerated from the library: the formula is
+            # evaluated draw by draw with Python's math module (undefined = it raises), so that an
+            # operator table that was changed in a way the translator can follow -- the model then
+            # follows the code -- is still held against the mathematical function
+            f2 = reference_check(c, o)
+            if f2:
+                fl = [f2]
+            dist["judged-also-by-own-evaluation-of-the-formula (math module)"] += 1
         failures += fl
         if nt:
             nontrivial.add(canon_hash([c["nodes"], c["vals"], c["errs"], c["rho"], c["per"],
@@ -1186,8 +1197,8 @@ def correspond(ctx):
                     ("zerocentre", ctx.n(30, 400)), ("domain-edge", ctx.n(90, 1200)),
                     ("pre:edit-recalc", ctx.n(50, 600)), ("pre:pin-global", ctx.n(30, 400)),
                     ("pre:bystander", ctx.n(36, 300)), ("pre:display", ctx.n(12, 100))):
-        r2 = run(ctx, n, sizes, **({"force_pre": kind[4:]} if kind.startswith("pre:") else
-                                    {"force_kind": kind}))
+        r2 = run(ctx, n, sizes, independent=(kind in ("domain-edge", "overflow")),
+                 **({"force_pre": kind[4:]} if kind.startswith("pre:") else {"force_kind": kind}))
         res["evaluations"] += r2["evaluations"]
         res["nontrivial"] |= r2["nontrivial"]
         res["failures"] += r2["failures"]
